@@ -30,6 +30,14 @@ func (ss *session) do(sql string, params ...Value) (*result, error) {
 	return res, err
 }
 
+func testSession(s *Server) *session {
+	ss := s.newSession()
+	s.mu.Lock()
+	s.register(ss)
+	s.mu.Unlock()
+	return ss
+}
+
 type tdb struct {
 	t  *testing.T
 	s  *Server
@@ -39,7 +47,7 @@ type tdb struct {
 func newTDB(t *testing.T, schema string) *tdb {
 	t.Helper()
 	s := NewServer()
-	d := &tdb{t: t, s: s, ss: s.newSession()}
+	d := &tdb{t: t, s: s, ss: testSession(s)}
 	if schema != "" {
 		d.exec(schema)
 	}
@@ -351,7 +359,7 @@ func TestUnnestAndRowIn(t *testing.T) {
 
 func TestTransactions(t *testing.T) {
 	d := newTDB(t, `CREATE TABLE m (id SERIAL PRIMARY KEY, d text NOT NULL); CREATE TABLE k (k text PRIMARY KEY, v text NOT NULL)`)
-	a, b := d.ss, d.s.newSession()
+	a, b := d.ss, testSession(d.s)
 	mustTag := func(ss *session, sql, tag string) {
 		t.Helper()
 		res, err := ss.do(sql)
